@@ -209,7 +209,7 @@ pub fn run(r: &Report) {
     // refusals: values the encoder itself must refuse
     {
         let sub = "encoder-refusals";
-        r.space(sub, true, "pre-epoch SystemTime, non-UTF-8 path", 1);
+        r.space(sub, true, "pre-epoch SystemTime, non-UTF-8 path as Path, PathBuf, Box<Path>, Cow<Path>, &&Path and inside an Option / a tuple", 1);
         let pre = std::time::UNIX_EPOCH - std::time::Duration::new(1, 0);
         if minicbor::to_vec(pre).is_ok() {
             r.fail(sub, None, json!({"type": "SystemTime", "value": "UNIX_EPOCH - 1s"}), "a pre-epoch SystemTime was encoded (documented as refused)");
@@ -219,8 +219,28 @@ pub fn run(r: &Report) {
         if minicbor::to_vec(bad).is_ok() {
             r.fail(sub, None, json!({"type": "Path", "value": "66ff6f"}), "a non-UTF-8 path was encoded (documented as refused)");
         }
-        r.add(sub, 2, 2);
-        r.outcome(sub, "refused", 2);
+        // every owner / wrapper of a path has its own Encode impl (or forwards): PathBuf, Box<Path>, Cow<Path>, &Path,
+        // and a path inside other values
+        let owned: std::path::PathBuf = bad.to_path_buf();
+        let boxed: Box<std::path::Path> = bad.into();
+        let cow_b: std::borrow::Cow<std::path::Path> = std::borrow::Cow::Borrowed(bad);
+        let cow_o: std::borrow::Cow<std::path::Path> = std::borrow::Cow::Owned(owned.clone());
+        let refused: [(&str, bool); 7] = [
+            ("PathBuf", minicbor::to_vec(&owned).is_err()),
+            ("Box<Path>", minicbor::to_vec(&boxed).is_err()),
+            ("Cow<Path> (borrowed)", minicbor::to_vec(&cow_b).is_err()),
+            ("Cow<Path> (owned)", minicbor::to_vec(&cow_o).is_err()),
+            ("&&Path", minicbor::to_vec(&&bad).is_err()),
+            ("Option<PathBuf>", minicbor::to_vec(Some(owned.clone())).is_err()),
+            ("(u8, PathBuf)", minicbor::to_vec((1u8, owned.clone())).is_err()),
+        ];
+        for (ty, ok) in refused {
+            if !ok {
+                r.fail(sub, None, json!({"type": ty, "value": "66ff6f"}), "a non-UTF-8 path was encoded (documented as refused)");
+            }
+        }
+        r.add(sub, 9, 9);
+        r.outcome(sub, "refused", 9);
     }
 
     // Tag (head only) and Int over the lattice
